@@ -153,7 +153,7 @@ Qed.
 (** the same in both build modes, and never a panic: the result does not mention the mode *)
 Definition with_mode (e : env) (m : mode) : env :=
   {| e_kind := e_kind e; e_adaptor := e_adaptor e; e_len := e_len e; e_start := e_start e; e_end := e_end e;
-     e_hint := e_hint e; e_owning := e_owning e; e_mode := m; e_crash := e_crash e |}.
+     e_hint := e_hint e; e_owning := e_owning e; e_mode := m; e_crash := e_crash e; e_gap := e_gap e |}.
 
 Lemma k_pull_modes e q b : wf_env e -> wf_req q ->
   k_pull (with_mode e Checked) q b = k_pull (with_mode e Wrapping) q b.
